@@ -254,10 +254,10 @@ def body():
     zs = stream_cipher_cases(c, chunkings)
     log("[C04] %d stream cipher cases" % len(zs))
     run_stream_cases(c, zs)
-    if not c.quick:
+    if True:            # other SM4 back ends (ENABLE_SMALL_FOOTPRINT, ENABLE_SM4_AESNI, ENABLE_SM4_AVX2): a slice of the same cases in both tiers
         for variant in ("small", "aesni", "avx2"):
             try:
-                run_cases(c, cs[::4], variant=variant, tag="c04" + variant)
+                run_cases(c, cs[::6] if c.quick else cs[::4], variant=variant, tag="c04" + variant)
             except RuntimeError as ex:
                 c.note("variant %s not run: %s" % (variant, str(ex)[:200]))
     for k, case, evs in execs[:1] + execs[len(execs) // 2:len(execs) // 2 + 1]:
